@@ -462,7 +462,7 @@ theorem addOffset_eq (sin cos : α → α) (inMat ref m0 m1 m2 : M44 α) (tOffse
   generalize hcz : cos ((5030569068109113 : α) / 288230376151711744 * rz) = cz
   ext i j; fin_cases i <;> fin_cases j <;>
     simp [Gen.Frame.addOffset, Gen.M44.setScaleV, Gen.M44.setEulerAngles, Gen.M44.setTranslation, M44.toMat, Matrix.mul_apply,
-      Fin.sum_univ_four, e, hsx, hsy, hsz, hcx, hcy, hcz] <;> ring
+      Fin.sum_univ_four, e, hsx, hsy, hsz, hcx, hcy, hcz] <;> ring1
 example : |(degToRad : ℝ) * 180 - 3.14159265358979| < 1 / 10 ^ 14 := by
   unfold degToRad; rw [abs_lt]; constructor <;> norm_num
 
